@@ -6,10 +6,11 @@
    Verdict: ok | (skip NAME) (native outside the model) | (bad EXPECTED).
    Values are compared by what they DENOTE (int / *big.Int / integer literal are one integer; a float
    and a fraction/exponent literal that parses to it are one float); results of libm oracles are
-   compared by class (a number).  (spec LINE) judges the line with coq/c03/Spec.v instead. *)
+   compared by class (a number); fromjson is judged with the RFC 8259 reference reader of C12.  (spec LINE) judges the line with coq/c03/Spec.v instead. *)
 From Coq Require Import List ZArith NArith Bool String Ascii.
 From Flocq Require Import IEEE754.BinarySingleNaN.
 From Verif Require Import common.Sexp common.Int64 c03.JV c03.FloatText c03.Core c03.Ops c03.Natives c03.Dispatch c03.Spec.
+From Verif Require c12.JsonRef.
 Import ListNotations.
 Open Scope Z_scope.
 
@@ -17,7 +18,40 @@ Open Scope Z_scope.
 Definition x_libm1 (_ : string) (_ : float) : float := fnan.
 Definition x_libm2 (_ : string) (_ _ : float) : float := fnan.
 Definition x_libm3 (_ : string) (_ _ _ : float) : float := fnan.
-Definition x_json_decode (_ : bytes) : jv + bool := inr false.
+(* fromjson: the RFC 8259 reference reader of C12 (coq/c12/JsonRef.v, proved against the encoder there)
+   plus what encoding/json adds: invalid UTF-8 inside strings becomes U+FFFD byte by byte, a repeated key
+   keeps its last value, nesting deeper than 10000 is refused.  Error classes as funcFromJSON produces
+   them: Decode fails (func0WrapError) when the first value is malformed or too deep; dec.Token() != io.EOF
+   (func0TypeError) when anything but white space follows the first value (the scanner defers its
+   complaint about a byte directly after a scalar to the next call, so Decode itself succeeds). *)
+Fixpoint of_ref (v : JsonRef.jv) : jv :=
+  match v with
+  | JsonRef.JNull => JNull
+  | JsonRef.JBool b => JBool b
+  | JsonRef.JNum lit => JNum (NLit lit)
+  | JsonRef.JStr s => JStr (encode_runes (runes s))
+  | JsonRef.JArr l => JArr (map of_ref l)
+  | JsonRef.JObj m =>
+      JObj (fold_left (fun acc kv => obj_set acc (fst kv) (snd kv))
+                      (map (fun kv => (encode_runes (runes (fst kv)), of_ref (snd kv))) m) [])
+  end.
+Fixpoint ref_depth (v : JsonRef.jv) : nat :=
+  match v with
+  | JsonRef.JArr l => S (fold_left Nat.max (map ref_depth l) O)
+  | JsonRef.JObj m => S (fold_left Nat.max (map (fun kv => ref_depth (snd kv)) m) O)
+  | _ => O
+  end.
+Definition max_nesting : nat := Z.to_nat 10000.
+Definition x_json_decode (s : bytes) : jv + bool :=
+  match JsonRef.pval (S (List.length s)) s with
+  | None => inr false
+  | Some (v, r) =>
+      if Nat.ltb max_nesting (ref_depth v) then inr false
+      else match JsonRef.skip_ws r with
+           | [] => inl (of_ref v)
+           | _ :: _ => inr true
+           end
+  end.
 Definition x_libm_pair (_ : string) (_ : float) : jv := JArr [jflt fnan; jflt fnan].
 
 Definition x_call := call_native parse_float_text fmt_float x_libm1 x_libm2 x_libm3 x_json_decode x_libm_pair.
@@ -189,15 +223,7 @@ Definition judge_model (name : string) (v : jv) (args : list jv) (impl : sexp) :
   match x_call range_fuel name v args with
   | None => SList [A "skip"; Atom (codes name)]
   | Some o =>
-      let fromjson_ok :=
-        String.eqb name "fromjson" && match v with JStr _ => true | _ => false end &&
-        match impl with
-        | SList [t; x] =>
-            (atom_is "ok" t && match dec_val x with Some _ => true | None => false end)
-            || (atom_is "err" t && (err_agree (EFunc0Wrap EExt) x || err_agree EFunc0Type x))
-        | _ => false
-        end in
-      if fromjson_ok || outcome_agree (class_only name) o impl then A "ok" else SList [A "bad"; enc_outcome o]
+      if outcome_agree (class_only name) o impl then A "ok" else SList [A "bad"; enc_outcome o]
   end.
 
 (* the independent oracle: documented functions over mathematical values (Spec.v) *)
